@@ -92,35 +92,40 @@ def c02_long(case):
             xs = np.array([q.GetX() for q in it0], dtype=float)
             zs = np.array([q.GetZ() for q in it0], dtype=float)
             ev = np.array([q.GetIndex() == 0 for q in it0], dtype=bool)
-            for it in range(case['iters'] - 1):
+            batch = int(case.get('batch', 1))
+            it = 0
+            while it < case['iters'] - 1 and not fails:
                 nlog = len(p.log)
+                sel.clear()
                 try:
-                    s.DoGlobalIteration(1)
+                    s.DoGlobalIteration(batch)
                 except Exception as e:  # noqa
                     stats['guard'] = str(e); break
-                if len(p.log) != nlog + 1 or not sel:
+                if len(p.log) != nlog + batch or len(sel) != batch:
+                    if len(p.log) != nlog + len(sel):
+                        fails.append('a call DoGlobalIteration(%d) selected %d intervals but evaluated %d points' % (batch, len(sel), len(p.log) - nlog))
                     break
-                xl, xr, xn, M, Z = sel.pop()
-                sel.clear()
-                D = (xs[1:] - xs[:-1]) ** (1.0 / n)
-                zl, zr, el, er = zs[:-1], zs[1:], ev[:-1], ev[1:]
-                with np.errstate(all='ignore'):
-                    Rin = D + (zr - zl) ** 2 / (r * r * M * M * D) - 2 * (zr + zl - 2 * Z) / (r * M)
-                    Rl = 2 * D - 4 * (zr - Z) / (r * M)
-                    Rr = 2 * D - 4 * (zl - Z) / (r * M)
-                R = np.where(el & er, Rin, np.where(er, Rl, Rr))
-                k = int(np.searchsorted(xs, xr)) - 1
-                if not (0 <= k < len(R)) or xs[k] != xl or xs[k + 1] != xr:
-                    fails.append('iteration %d: the subdivided interval (%r, %r) is not an interval of the partition' % (it + 2, xl, xr)); break
-                mx = float(R.max())
-                if R[k] < mx - (abs(mx) * 1e-9 + 1e-12):
-                    j = int(R.argmax())
-                    fails.append('iteration %d of a long run (%d intervals): subdivided (%.12g, %.12g) with characteristic %.12g although (%.12g, %.12g) has %.12g (M=%r z*=%r)'
-                                 % (it + 2, len(R), xl, xr, R[k], xs[j], xs[j + 1], mx, M, Z)); break
-                if not (xl < xn < xr):
-                    fails.append('iteration %d: new point %r not strictly inside (%r, %r)' % (it + 2, xn, xl, xr)); break
-                xs = np.insert(xs, k + 1, xn); zs = np.insert(zs, k + 1, p.log[-1][1]); ev = np.insert(ev, k + 1, True)
-                stats['steps'] += 1
+                for bi, (xl, xr, xn, M, Z) in enumerate(list(sel)):
+                    it += 1
+                    D = (xs[1:] - xs[:-1]) ** (1.0 / n)
+                    zl, zr, el, er = zs[:-1], zs[1:], ev[:-1], ev[1:]
+                    with np.errstate(all='ignore'):
+                        Rin = D + (zr - zl) ** 2 / (r * r * M * M * D) - 2 * (zr + zl - 2 * Z) / (r * M)
+                        Rl = 2 * D - 4 * (zr - Z) / (r * M)
+                        Rr = 2 * D - 4 * (zl - Z) / (r * M)
+                    R = np.where(el & er, Rin, np.where(er, Rl, Rr))
+                    k = int(np.searchsorted(xs, xr)) - 1
+                    if not (0 <= k < len(R)) or xs[k] != xl or xs[k + 1] != xr:
+                        fails.append('iteration %d: the subdivided interval (%r, %r) is not an interval of the partition formed by all earlier trials' % (it + 1, xl, xr)); break
+                    mx = float(R.max())
+                    if R[k] < mx - (abs(mx) * 1e-9 + 1e-12):
+                        j = int(R.argmax())
+                        fails.append('iteration %d (%d intervals, batches of %d): subdivided (%.12g, %.12g) with characteristic %.12g although (%.12g, %.12g) has %.12g (M=%r z*=%r)'
+                                     % (it + 1, len(R), batch, xl, xr, R[k], xs[j], xs[j + 1], mx, M, Z)); break
+                    if not (xl < xn < xr):
+                        fails.append('iteration %d: new point %r not strictly inside (%r, %r)' % (it + 1, xn, xl, xr)); break
+                    xs = np.insert(xs, k + 1, xn); zs = np.insert(zs, k + 1, p.log[nlog + bi][1]); ev = np.insert(ev, k + 1, True)
+                    stats['steps'] += 1
             stats['max_intervals'] = int(len(xs) - 1)
     finally:
         Method.CalculateIterationPoint = orig
